@@ -82,8 +82,65 @@ func c07LockEvents(body *ast.BlockStmt) []string {
 	return out
 }
 
+// c07FlowCalls: like c07Flow, plus the init statement of an `if` and every call statement (delete(...), defer, method calls)
+func c07FlowCalls(n ast.Node) []string {
+	if n == nil {
+		return []string{"MISSING"}
+	}
+	var out []string
+	ast.Inspect(n, func(m ast.Node) bool {
+		switch x := m.(type) {
+		case *ast.FuncLit:
+			out = append(out, "funclit")
+			return false
+		case *ast.IfStmt:
+			if x.Init != nil {
+				out = append(out, "if:"+c07Src(x.Init)+"; "+c07Src(x.Cond))
+				for _, sub := range c07FlowCalls(x.Body) {
+					out = append(out, sub)
+				}
+				if x.Else != nil {
+					out = append(out, "else")
+					out = append(out, c07FlowCalls(x.Else)...)
+				}
+				return false
+			}
+			out = append(out, "if:"+c07Src(x.Cond))
+		case *ast.RangeStmt:
+			out = append(out, "range:"+c07Src(x.X))
+		case *ast.AssignStmt:
+			out = append(out, "assign:"+c07Src(x))
+		case *ast.ExprStmt:
+			out = append(out, "call:"+c07Src(x.X))
+		case *ast.DeferStmt:
+			out = append(out, "defer:"+c07Src(x.Call))
+			return false
+		case *ast.GoStmt:
+			out = append(out, "go")
+			return false
+		case *ast.ReturnStmt:
+			var r []string
+			for _, e := range x.Results {
+				r = append(r, c07Src(e))
+			}
+			out = append(out, "return:"+strings.Join(r, ","))
+			return false
+		}
+		return true
+	})
+	return out
+}
+
 func c07Conv(l *lean) {
 	_, conv := parseFile("network/transport/v2/conversation.go")
+	for _, m := range []string{"startConversation", "hasActiveConversation", "evict", "done", "resetTimeout", "check"} {
+		var body ast.Node
+		if fd := c07Method(conv, "conversationManager", m); fd != nil {
+			body = fd.Body
+		}
+		fl := c07FlowCalls(body)
+		l.def("convFlow_"+m, "List String", leanStrList(fl), fl)
+	}
 	var rows []string
 	for _, d := range conv.Decls {
 		fd, ok := d.(*ast.FuncDecl)
